@@ -199,7 +199,7 @@ func (c *Collector) Sample(caseJSON []byte) {
 func (c *Collector) Inconc(note string) {
 	c.mu.Lock()
 	c.Inconclusive++
-	if len(c.InconcNotes) < 10 {
+	if len(c.InconcNotes) < 3 {
 		c.InconcNotes = append(c.InconcNotes, note)
 	}
 	c.mu.Unlock()
